@@ -236,6 +236,7 @@ class Adapter:
       o = dict(t.obs)
       o["count"] = cnt
       if o.get("deq_msg") is not None: o["deq_msg"] = self.rd(o["deq_msg"])
+      if "peek" in o and not isinstance(o["peek"], str): o["peek"] = self.rd(o["peek"])
       return o
     t.sim_tick()
     return o
@@ -245,6 +246,7 @@ def judge(sh, cfg, ref, e, mid, d, obs, ctx):
   """compare one cycle; the reference then follows the *observed* transfers so that one deviation
   is reported once instead of cascading.  returns False when the run cannot continue"""
   exp = ref.expect(e, mid, d)
+  head0 = ref.q[0] if ref.q else None
   must = ref.apply(obs["enq_fire"], mid, obs["deq_fire"])
   sh.count("cycles_judged"); sh.count("evaluations")
   tag = {k: cfg[k] for k in ("module", "cls", "kind", "n")}
@@ -254,6 +256,14 @@ def judge(sh, cfg, ref, e, mid, d, obs, ctx):
        and exp["enq_rdy"] and not obs["enq_rdy"]:
       mech = "bypassqueue2-bubble-not-ready-with-free-entry"
     sh.violation(kind, dict(tag, **kw, **ctx, expected=exp, observed=obs, pg=cfg.get("pg")), mechanism=mech)
+  if "peek" in obs and obs.get("deq_val"):
+    # CL queues: peek() shows the message the next deq() delivers - the head of the FIFO (for a bypass queue that is empty, the
+    # message enqueued earlier in this very cycle)
+    sh.count("peek_checks")
+    want = head0 if head0 is not None else (mid if obs["enq_fire"] and cfg["kind"] == "bypass" else None)
+    got = obs["peek"]
+    if want is not None and got != want:
+      V("peek-shows-another-message-than-the-fifo-head", peek=got, fifo_head=want)
   if obs["enq_rdy"] != exp["enq_rdy"]:
     V("enq-ready-wrong")
   if obs.get("deq_val") is not None and obs["deq_val"] != exp["deq_val"]:
@@ -314,7 +324,7 @@ def thresholds(tier):
   n = len(configs(tier))
   t = {"configs_explored": n, "exhaustive_sets_complete": n - 5, "cycles_judged": 30000, "messages_delivered": 8000,
        "count_checks": 10000, "resets_midrun": 50, "pipe_enq_when_full": 200, "bypass_deq_when_empty": 200,
-       "mixed_system_runs": 100, "mixed_messages_delivered": 1000}
+       "mixed_system_runs": 100, "mixed_messages_delivered": 1000, "peek_checks": 1000}
   if tier == "thorough":
     t.update({"cycles_judged": 800000, "messages_delivered": 200000})
   return t
